@@ -17,6 +17,7 @@ import numpy as np
 
 from mc import core, explore, gen
 from mc import harness as H
+from checks import c10_netcdf as T10
 
 PID = "C20"
 LEVEL = "exploration"
@@ -365,7 +366,9 @@ def plan(tier):
     return [("accumulate", h_accumulate, {"sizes": True}, "dev", 1 if q else 2),
             ("ens2prob", h_ens2prob, {"thr": ordered_selections([1.0, 2.0, 5.0], 2) + [(5.0, 0.0, 2.0)] if q else ordered_selections([0.0, 1.0, 2.0, 5.0], 3),
                           "qs": ordered_selections([0.0, 0.5, 1.0], 2) + [(0.25, 0.75), (0.75, 0.25)] if q else ordered_selections([0.0, 0.25, 0.5, 0.75, 1.0], 2) + [(0.75, 0.25, 0.5), (0.0, 1.0, 0.5)]}, "dev", 1 if q else 2),
-            ("expandverif", h_expand, {}, "dev", 1)]
+            ("expandverif", h_expand, {}, "dev", 1),
+            # text2nc is a helper script too: the round-trip oracle of C10 (every field of the text file, pit included, is in the NetCDF file)
+            ("text2nc", T10.h_text2nc, {}, "full", None)]
 
 
 def run(tier, only=None):
@@ -375,8 +378,9 @@ def run(tier, only=None):
             continue
         t0 = time.time()
         st = explore.explore(h, mode=mode, k=k, params=params, repo_root=core.REPO, time_cap=(300 if tier == "quick" else 3000))
-        bound = {"accumulate": "full {text,nc} x 6 windows x 2 axes x -i, dev(%d) over missing cells" % k,
-                 "ens2prob": "full {text,nc} x 1-3 members x ordered threshold selections x ordered level selections x -p, dev(%d) over missing obs/member/fcst" % k,
+        bound = {"accumulate": "full {text,nc} x 6 windows x 2 axes x -i, dev(%s) over missing cells" % k,
+                 "ens2prob": "full {text,nc} x 1-3 members x ordered threshold selections x ordered level selections x -p, dev(%s) over missing obs/member/fcst" % k,
+                 "text2nc": "2^5 field subsets x 3 missing-cell variants x 2 row orders (the round trip of C10)",
                  "expandverif": "full {text,nc} x 9 -i lists x 36 -lt lists (ascending subsets and permuted / descending ones) x 2 input init hours x {ascending, descending, rotated} input time axis of three days, dev(1) missing obs"}[name]
         subs.append(core.Sub.from_e1(name, st, bound=bound, rule="one execution = one script run, every output cell compared with the reference transformation",
                                      required_flags=("pit-missing-obs", "decimal-tie") if name == "ens2prob" else ("ordinary-size",) if name == "accumulate" else (), wall=time.time() - t0))
